@@ -6,7 +6,7 @@ from .C01 import ASSUME
 def main(tier, seed):
     c = Check("C15", tier, seed)
     jobs = []
-    for shape in ("plain", "missing", "nested", "nested-missing"):
+    for shape in ("plain", "missing", "nested", "nested-missing", "unset-output"):
         for pol in (("fifo", "lifo") if tier == "quick" else ("explore",)):
             jobs.append(("props.subflow", "call", ("C15", shape, pol, 60 if tier == "quick" else 3000)))
     c.run_jobs(jobs)
